@@ -334,7 +334,14 @@ pub struct FaultDb<'a> {
     pub hist: RefCell<BTreeMap<&'static str, u64>>,
     pub keep_hist: bool,
     /// C18 run-time monitor: impls filtered out by `impls_for_trait` that nevertheless unify
+    /// item ids that crossed the database boundary in a way a recorder can see ("adt:3", "trait:1", "impl:7", ...)
+    pub served: RefCell<std::collections::BTreeSet<String>>,
+    pub track_served: bool,
+    /// inside `program_clauses_for_env` (a wrapper around this database cannot see the lookups made there)
+    pub in_env_clauses: Cell<bool>,
     pub check_filter: bool,
+    /// every impl of the program with its trait, from the lowered `Program` itself (not through `impls_for_trait`)
+    pub all_impls: Vec<(ImplId<I>, TraitId<I>)>,
     pub filter_checked: Cell<u64>,
     pub filter_rejected: Cell<u64>,
     pub filter_violations: RefCell<Vec<String>>,
@@ -380,7 +387,11 @@ impl<'a> FaultDb<'a> {
             nonground_coinductive: Cell::new(false),
             hist: RefCell::new(BTreeMap::new()),
             keep_hist: false,
+            served: RefCell::new(Default::default()),
+            track_served: false,
+            in_env_clauses: Cell::new(false),
             check_filter: false,
+            all_impls: vec![],
             filter_checked: Cell::new(0),
             filter_rejected: Cell::new(0),
             filter_violations: RefCell::new(vec![]),
@@ -424,6 +435,11 @@ impl<'a> FaultDb<'a> {
             std::panic::panic_any(BUDGET_PAYLOAD.to_string());
         }
     }
+    fn serve(&self, kind: &str, idx: u32) {
+        if self.track_served && !self.in_env_clauses.get() {
+            self.served.borrow_mut().insert(format!("{}:{}", kind, idx));
+        }
+    }
     fn note_coinductive(&self, t: TraitId<I>, nonground: bool) {
         if nonground && !self.nonground_coinductive.get() {
             let d = self.inner.trait_datum(t);
@@ -448,7 +464,8 @@ impl<'a> FaultDb<'a> {
         if !datum.binders.binders.iter(interner).all(|k| matches!(k, VariableKind::Ty(_))) {
             return;
         }
-        let all = self.inner.impls_for_trait(t, &general, &general_binders);
+        // independent source of "all impls": the program's own impl table when the harness provided it
+        let all: Vec<ImplId<I>> = if self.all_impls.is_empty() { self.inner.impls_for_trait(t, &general, &general_binders) } else { self.all_impls.iter().filter(|(_, tr)| *tr == t).map(|(id, _)| *id).collect() };
         for id in all {
             if kept.contains(&id) {
                 continue;
@@ -480,10 +497,12 @@ impl<'a> FaultDb<'a> {
 impl<'a> UnificationDatabase<I> for FaultDb<'a> {
     fn fn_def_variance(&self, id: FnDefId<I>) -> Variances<I> {
         self.tick("fn_def_variance");
+        self.serve("fndef", id.0.index);
         self.inner.unification_database().fn_def_variance(id)
     }
     fn adt_variance(&self, id: AdtId<I>) -> Variances<I> {
         self.tick("adt_variance");
+        self.serve("adt", id.0.index);
         self.inner.unification_database().adt_variance(id)
     }
 }
@@ -495,14 +514,18 @@ impl<'a> RustIrDatabase<I> for FaultDb<'a> {
     }
     fn associated_ty_data(&self, ty: AssocTypeId<I>) -> Arc<AssociatedTyDatum<I>> {
         self.tick("associated_ty_data");
-        self.inner.associated_ty_data(ty)
+        let d = self.inner.associated_ty_data(ty);
+        self.serve("trait", d.trait_id.0.index);
+        d
     }
     fn trait_datum(&self, id: TraitId<I>) -> Arc<TraitDatum<I>> {
         self.tick("trait_datum");
+        self.serve("trait", id.0.index);
         self.inner.trait_datum(id)
     }
     fn adt_datum(&self, id: AdtId<I>) -> Arc<AdtDatum<I>> {
         self.tick("adt_datum");
+        self.serve("adt", id.0.index);
         self.inner.adt_datum(id)
     }
     fn coroutine_datum(&self, id: CoroutineId<I>) -> Arc<CoroutineDatum<I>> {
@@ -515,18 +538,22 @@ impl<'a> RustIrDatabase<I> for FaultDb<'a> {
     }
     fn adt_repr(&self, id: AdtId<I>) -> Arc<AdtRepr<I>> {
         self.tick("adt_repr");
+        self.serve("adt", id.0.index);
         self.inner.adt_repr(id)
     }
     fn adt_size_align(&self, id: AdtId<I>) -> Arc<AdtSizeAlign> {
         self.tick("adt_size_align");
+        self.serve("adt", id.0.index);
         self.inner.adt_size_align(id)
     }
     fn fn_def_datum(&self, id: FnDefId<I>) -> Arc<FnDefDatum<I>> {
         self.tick("fn_def_datum");
+        self.serve("fndef", id.0.index);
         self.inner.fn_def_datum(id)
     }
     fn impl_datum(&self, id: ImplId<I>) -> Arc<ImplDatum<I>> {
         self.tick("impl_datum");
+        self.serve("impl", id.0.index);
         self.inner.impl_datum(id)
     }
     fn associated_ty_from_impl(&self, impl_id: ImplId<I>, a: AssocTypeId<I>) -> Option<AssociatedTyValueId<I>> {
@@ -535,20 +562,28 @@ impl<'a> RustIrDatabase<I> for FaultDb<'a> {
     }
     fn associated_ty_value(&self, id: AssociatedTyValueId<I>) -> Arc<AssociatedTyValue<I>> {
         self.tick("associated_ty_value");
-        self.inner.associated_ty_value(id)
+        let v = self.inner.associated_ty_value(id);
+        self.serve("impl", v.impl_id.0.index);
+        v
     }
     fn opaque_ty_data(&self, id: OpaqueTyId<I>) -> Arc<OpaqueTyDatum<I>> {
         self.tick("opaque_ty_data");
+        self.serve("opaque", id.0.index);
         self.inner.opaque_ty_data(id)
     }
     fn hidden_opaque_type(&self, id: OpaqueTyId<I>) -> Ty<I> {
         self.tick("hidden_opaque_type");
+        self.serve("opaque", id.0.index);
         self.inner.hidden_opaque_type(id)
     }
     fn impls_for_trait(&self, t: TraitId<I>, p: &[GenericArg<I>], b: &CanonicalVarKinds<I>) -> Vec<ImplId<I>> {
         self.tick("impls_for_trait");
         self.note_coinductive(t, p.iter().any(|a| has_var(a)));
         let r = self.inner.impls_for_trait(t, p, b);
+        self.serve("trait", t.0.index);
+        for i in &r {
+            self.serve("impl", i.0.index);
+        }
         if self.check_filter {
             self.filter_monitor(t, p, b, &r);
         }
@@ -556,10 +591,15 @@ impl<'a> RustIrDatabase<I> for FaultDb<'a> {
     }
     fn local_impls_to_coherence_check(&self, t: TraitId<I>) -> Vec<ImplId<I>> {
         self.tick("local_impls_to_coherence_check");
+        self.serve("trait", t.0.index);
         self.inner.local_impls_to_coherence_check(t)
     }
     fn impl_provided_for(&self, t: TraitId<I>, ty: &TyKind<I>) -> bool {
         self.tick("impl_provided_for");
+        self.serve("trait", t.0.index);
+        if let TyKind::Adt(a, _) = ty {
+            self.serve("adt", a.0.index);
+        }
         self.inner.impl_provided_for(t, ty)
     }
     fn well_known_trait_id(&self, w: WellKnownTrait) -> Option<TraitId<I>> {
@@ -572,7 +612,10 @@ impl<'a> RustIrDatabase<I> for FaultDb<'a> {
     }
     fn program_clauses_for_env(&self, environment: &Environment<I>) -> ProgramClauses<I> {
         self.tick("program_clauses_for_env");
-        chalk_solve::program_clauses_for_env(self, environment)
+        let before = self.in_env_clauses.replace(true);
+        let r = chalk_solve::program_clauses_for_env(self, environment);
+        self.in_env_clauses.set(before);
+        r
     }
     fn interner(&self) -> I {
         if self.count_interner {
@@ -582,6 +625,7 @@ impl<'a> RustIrDatabase<I> for FaultDb<'a> {
     }
     fn is_object_safe(&self, t: TraitId<I>) -> bool {
         self.tick("is_object_safe");
+        self.serve("trait", t.0.index);
         self.inner.is_object_safe(t)
     }
     fn closure_kind(&self, c: ClosureId<I>, s: &Substitution<I>) -> ClosureKind {
@@ -620,6 +664,9 @@ impl<'a> RustIrDatabase<I> for FaultDb<'a> {
     }
     fn discriminant_type(&self, ty: Ty<I>) -> Ty<I> {
         self.tick("discriminant_type");
+        if let TyKind::Adt(a, _) = ty.kind(ChalkIr) {
+            self.serve("adt", a.0.index);
+        }
         self.inner.discriminant_type(ty)
     }
 }
